@@ -4,9 +4,9 @@ EXTENDS WsChannel, Json, IOUtils
 CONSTANT L
 VARIABLE hist
 CatalogSeq == ndJsonDeserialize(IOEnv.WS_CATALOG)
-CatalogMsgs == {CatalogSeq[i] : i \in 1..Len(CatalogSeq)}
+CatalogMsgs == {[id |-> CatalogSeq[i].id, kind |-> CatalogSeq[i].kind, dlen |-> CatalogSeq[i].dlen] : i \in 1..Len(CatalogSeq)}
 GenInit == InitState /\ hist = <<>>
-GenStep == \/ \E d \in Dirs, m \in {x.id : x \in Msgs} : Send(d, m)
+GenStep == \/ \E d \in Dirs, m \in Msgs : Send(d, m)
            \/ \E d \in Dirs, k \in PieceCounts, c \in Ctls, s \in Segs : Transfer(d, k, c, s)
 GenNext == GenStep /\ hist' = Append(hist, step')
 GenSpec == GenInit /\ [][GenNext]_<<vars, step, hist>>
